@@ -25,7 +25,7 @@ FLOOR_KEYS = [f"op:{op}:{m}:{n}" for op in ("u_add", "u_rm", "v_add_uni", "v_rm_
 
 def floors(ctx):
     f = {"evaluations": 20000 if ctx.tier == "quick" else 200000, "histories": 1000, "ops_raised": 500,
-         "op:mkv:unis_dup": 10, "op:mku:dupverts:autolaws": 10}
+         "op:mkv:unis_dup": 10, "op:mku:dupverts:autolaws": 10, "bursts": 500}
     for k in FLOOR_KEYS:
         f[k] = 1
     return f
